@@ -131,6 +131,18 @@ func (fs *fsMutable) deleteNSEntry(p fuseops.InodeID, c string) error {
 	children := fs.readDirMap[p]
 	// Delete from parent read dir
 	delete(children, cLE.iNode)
+
+	// The node is no longer part of the tree: it goes away with the last reference the kernel holds on it.
+	cNode.lock.Lock()
+	cNode.removed = true
+	cNode.attr.Nlink = 0
+	gone := shouldDelete(cNode)
+	cNode.lock.Unlock()
+	if gone {
+		// the kernel holds no reference: no ForgetInode will come for this node
+		fs.iNodeStore, _, _ = fs.iNodeStore.Delete(formKey(cLE.iNode))
+		fs.iNodeGenerator.freeINode(cLE.iNode)
+	}
 	return nil
 }
 
@@ -286,8 +298,8 @@ func (fs *fsMutable) ForgetInode(
 		if shouldDelete(n) {
 			fs.iNodeStore, _, _ = fs.iNodeStore.Delete(key)
 			fs.l.Debug("NodeStore", zap.Int("Size", fs.iNodeStore.Len()))
+			fs.iNodeGenerator.freeINode(op.Inode)
 		}
-		fs.iNodeGenerator.freeINode(op.Inode)
 	}
 	return nil
 }
@@ -735,17 +747,9 @@ func getPathToBackingFile(iNode fuseops.InodeID) string {
 }
 
 func shouldDelete(n *nodeEntry) bool {
-	// LookupCount should be zero.
-	if n.attr.Mode.IsDir() {
-		if n.refCount == 0 {
-			return true
-		}
-	} else {
-		if n.refCount == 0 && n.attr.Nlink == 0 {
-			return true
-		}
-	}
-	return false
+	// LookupCount should be zero, and the node removed from the tree: the kernel may well forget about
+	// a file or a directory which is still there, and look it up again later.
+	return n.refCount == 0 && n.removed
 }
 
 type commitChans struct {
